@@ -145,7 +145,10 @@ class History:
     def base_player(self, eid=None):
         if self.avatar_idx is None:
             return False
-        eid = eid if eid is not None else self.fresh_id()
+        if eid is None:
+            # mostly a fresh id; sometimes an avatar that so far only got its cell-player packet (the order of the two is not fixed)
+            known = [i for i, e in self.world.items() if e['type'] == self.avatar_idx and i != self.player_id and 0 <= i < 2 ** 31]
+            eid = self.rng.choice(known) if known and self.rng.random() < 0.3 else self.fresh_id()
         view = self.views[self.avatar_idx]
         body = b''
         ent = self.world.get(eid) or self.new_entity(eid, self.avatar_idx)
